@@ -392,9 +392,17 @@ pub fn generate(seed: u64, limits: &GenLimits, allowed: &Features) -> GenProblem
     let n_types = if f.shift_focus { 1 } else { n_types };
     let mut vehicles = vec![];
     let mut resources = vec![];
+    let nested_ids = n_types >= 2 && cx.p.chance(0.12);
     for t in 0..n_types {
         let n_ids = if f.many_vehicles { cx.p.usize(2, 5) } else { cx.p.usize(1, 2) };
-        let ids: Vec<String> = (0..n_ids).map(|i| format!("v{t}_{i}")).collect();
+        // vehicle ids of different types may contain each other ("v0_1" is a type of its own next to "v0_1x")
+        let ids: Vec<String> = if nested_ids && t == 0 {
+            (0..n_ids).map(|i| format!("v0_{i}x")).collect()
+        } else if nested_ids {
+            (0..n_ids).map(|i| format!("v0_{}", i + 5 * (t - 1))).collect()
+        } else {
+            (0..n_ids).map(|i| format!("v{t}_{i}")).collect()
+        };
         let mut prof = Map::new();
         prof.insert("matrix".into(), json!(cx.p.pick(&profile_names).clone()));
         if f.scale && cx.p.chance(0.6) {
